@@ -303,14 +303,18 @@ def unit_types_sweep():
         # --- Decimal: both separator conventions, all formats
         def dec_cases():
             for name, dec, thou in (("delimited", ".", ""), ("delimited", ".", ","), ("delimited", ",", "."), ("fixed", ",", "."), ("excel", ".", ""), ("ods", ".", ""), ("delimited", ",", ""), ("fixed", ",", ""),
-                                    ("late:delimited", ",", "."), ("late:fixed", ",", "")):
+                                    ("late:delimited", ",", "."), ("late:fixed", ",", ""), ("early:delimited", ",", "."), ("early:fixed", ",", "")):
                 for rule in ("", "-10.5...100", "0..."):
                     yield (name, dec, thou, rule)
         def dec_check(c):
             name, dec, thou, rule = c
-            if name.startswith("late:"):
-                name = name[5:]; fobj, later = fmt_obj(name, dec, thou, defer=True)
-                fld = fields.DecimalFieldFormat("d", False, "8" if name == "fixed" else "", rule, fobj); later()
+            if name.startswith(("late:", "early:")):
+                early = name.startswith("early:"); name = name.split(":")[1]; fobj, later = fmt_obj(name, dec, thou, defer=True)
+                fld = fields.DecimalFieldFormat("d", False, "8" if name == "fixed" else "", rule, fobj)
+                if early:        # the field is used once before the property rows arrive (as the example of its own row is): nothing of that use may stick
+                    try: fld.validated("1")
+                    except errors.FieldValueError: pass
+                later()
             else:
                 fld = fields.DecimalFieldFormat("d", False, "8" if name == "fixed" else "", rule, fmt_obj(name, dec, thou))
             lo, hi = (decimal.Decimal(x) if x else None for x in (rule.split("...") if rule else ("-9999999999999999999.999999999999", "9999999999999999999.999999999999")))
@@ -331,7 +335,7 @@ def unit_types_sweep():
                 except errors.FieldValueError: pass
                 except Exception as e: return {"expected": "%r rejected with a FieldValueError" % bad, "observed": repr(e)}
             return None
-        res.append(sweep("C02/bounded/Decimal fields", dec_cases(), dec_check, "bounded", "10 format / separator conventions (two with the separators declared after the field) x 3 rules x 11 numerals (+ 4 with 29-33 significant digits) written with the format's separators + malformed numerals",
+        res.append(sweep("C02/bounded/Decimal fields", dec_cases(), dec_check, "bounded", "12 format / separator conventions (four with the separators declared after the field, two of them after the field was already used once) x 3 rules x 11 numerals (+ 4 with 29-33 significant digits) written with the format's separators + malformed numerals",
                          describe=lambda c: dict(zip(("format", "decimal_separator", "thousands_separator", "rule"), c)), function="fields.DecimalFieldFormat", unit="C02.types", props=["C02"]))
         # --- Choice / Constant
         def cc_check(c):
